@@ -63,6 +63,14 @@ fn positions_for(text: &str) -> J {
     pgo.insert("pg".into(), guarded(|| json!(Type::alter().name(Alias::new("ty"))
         .rename_value(Alias::new("k1"), Alias::new(&t)).to_string(PostgresQueryBuilder))));
     o.insert("pg_type_rename_value".into(), J::Object(pgo));
+    // PostgreSQL array literal: every element is written as the backend's own literal
+    #[cfg(feature = "full")]
+    {
+        let mut pgo = serde_json::Map::new();
+        let t2 = t.clone();
+        pgo.insert("pg".into(), guarded(move || json!(Query::select().expr(Expr::val(vec![t2.clone(), "k".to_string()])).to_string(PostgresQueryBuilder))));
+        o.insert("pg_array_element".into(), J::Object(pgo));
+    }
     J::Object(o)
 }
 
